@@ -155,6 +155,16 @@ def replay_tally_getter(rec):
                 if want is None or exc_matches(e, want):
                     return {"reproduced": True, "input": {"observations": seq, "call": meth, "args": args},
                             "observed": "%s: %s" % (type(e).__name__, e)}
+                continue
+            if want is None:
+                # a value obligation: compare every query with the textbook definition (exact rational reference)
+                try:
+                    mm = tally_mismatch(t, seq)
+                except Exception as e:
+                    mm = ("query", "%s: %s" % (type(e).__name__, e), "a value or NaN")
+                if mm:
+                    return {"reproduced": True, "input": {"observations": seq, "query": mm[0]},
+                            "observed": "%s reports %r after the observations %s; the documented definition gives %r" % (mm[0], mm[1], seq, mm[2])}
     return {"reproduced": False, "note": "no failing observation sequence found (n<=6 candidates)"}
 
 
@@ -1302,6 +1312,120 @@ def replay_weighted(rec):
     return {"reproduced": False, "note": "no failing weighted / timestamped history found (3000 random histories)"}
 
 
+def simstat_search(rounds=80, seed=0):
+    """Simulation statistics on the real code, driven through the real publish/subscribe path: a producer fires data
+    events, the (not started) simulator fires WARMUP / END_REPLICATION at a harness-controlled clock.  Oracle: after every
+    operation the statistic answers exactly like the plain statistic of its family fed the observations made since the
+    last warm-up (same operations in the same order, so equality is exact; NaN equals NaN)."""
+    import io
+    import contextlib
+    from pydsol.core.simulator import DEVSSimulatorFloat
+    from pydsol.core.pubsub import EventProducer
+    from pydsol.core.interfaces import StatEvents, ReplicationInterface
+    from pydsol.core.statistics import (SimCounter, SimTally, SimWeightedTally, SimPersistent, Counter, Tally, WeightedTally,
+                                        TimestampWeightedTally)
+    rng = random.Random(3000 + seed)
+
+    def same(a, b):
+        if isinstance(a, float) and isinstance(b, float) and math.isnan(a) and math.isnan(b):
+            return True
+        return a == b
+
+    QUERIES = {"counter": ("n", "count"), "tally": ("n", "sum", "min", "max", "mean", "variance", "stdev"),
+               "weighted": ("n", "min", "max", "weighted_sum", "weighted_mean", "weighted_variance"),
+               "persistent": ("n", "min", "max", "weighted_sum", "weighted_mean", "weighted_variance")}
+    out = io.StringIO()
+    for r in range(rounds):
+        kind = ("counter", "tally", "weighted", "persistent")[r % 4]
+        sim = DEVSSimulatorFloat("simstat")
+        clock = rng.choice([0.0, 0.0, 5.0])
+        sim._simulator_time = clock
+        prod = EventProducer()
+        via_clock = False
+        if kind == "counter":
+            stat, fresh = SimCounter("k", "c", sim, producer=prod, event_type=StatEvents.DATA_EVENT), (lambda: Counter("ref"))
+        elif kind == "tally":
+            stat, fresh = SimTally("k", "t", sim, producer=prod, event_type=StatEvents.DATA_EVENT), (lambda: Tally("ref"))
+        elif kind == "weighted":
+            stat, fresh = SimWeightedTally("k", "w", sim, producer=prod, event_type=StatEvents.WEIGHT_DATA_EVENT), (lambda: WeightedTally("ref"))
+        else:
+            # half of the persistent statistics observe plain data events at the simulator clock
+            via_clock = rng.random() < 0.5
+            stat = SimPersistent("k", "p", sim, producer=prod,
+                                 event_type=StatEvents.DATA_EVENT if via_clock else StatEvents.TIMESTAMP_DATA_EVENT)
+            fresh = lambda: TimestampWeightedTally("ref")
+        ref = fresh()
+        ops = []
+        closed = False
+        try:
+            with contextlib.redirect_stdout(out), contextlib.redirect_stderr(out):
+                for _ in range(rng.randrange(2, 12)):
+                    k = rng.random()
+                    if k < 0.55:
+                        if kind == "counter":
+                            x = rng.choice([1, 1, 2, 5, -3, 0])
+                            ops.append(("observe", x))
+                            prod.fire(StatEvents.DATA_EVENT, x)
+                            ref.register(x)
+                        elif kind == "tally":
+                            x = rng.choice([0.0, 1.0, 2.5, -1.0, 7.25])
+                            ops.append(("observe", x))
+                            prod.fire(StatEvents.DATA_EVENT, x)
+                            ref.register(x)
+                        elif kind == "weighted":
+                            w, x = rng.choice([0.0, 0.5, 1.0, 2.0]), rng.choice([0.0, 1.0, 2.5, -1.0])
+                            ops.append(("observe", w, x))
+                            prod.fire(StatEvents.WEIGHT_DATA_EVENT, (w, x))
+                            ref.register(w, x)
+                        else:
+                            x = rng.choice([0.0, 1.0, 3.0, 5.0, -2.0])
+                            ops.append(("observe at", clock, x))
+                            if via_clock:
+                                prod.fire(StatEvents.DATA_EVENT, x)
+                            else:
+                                prod.fire_timed(clock, StatEvents.TIMESTAMP_DATA_EVENT, x)
+                            ref.register(clock, x)
+                    elif k < 0.8:
+                        clock += rng.choice([0.0, 0.5, 1.0, 2.0])
+                        sim._simulator_time = clock
+                        ops.append(("clock", clock))
+                    elif k < 0.93:
+                        ops.append(("warm-up at", clock))
+                        sim.fire_timed(clock, ReplicationInterface.WARMUP_EVENT, None)
+                        ref = fresh()
+                    elif kind == "persistent":
+                        ops.append(("end of replication at", clock))
+                        sim.fire_timed(clock, ReplicationInterface.END_REPLICATION_EVENT, None)
+                        ref.end_observations(clock)
+                        closed = True
+                    for q in QUERIES[kind]:
+                        a, b = getattr(stat, q)(), getattr(ref, q)()
+                        if not same(a, b):
+                            return {"statistic": type(stat).__name__, "operations": ops, "observes_at_simulator_clock": via_clock,
+                                    "failure": "%s.%s() is %r after %s; the plain %s fed the observations since the last warm-up reports %r"
+                                               % (type(stat).__name__, q, a, ops[-6:], type(ref).__name__, b)}
+                    if closed:
+                        break
+        except Exception as e:
+            return {"statistic": type(stat).__name__, "operations": ops, "failure": "%s escaped: %s" % (type(e).__name__, e)}
+        finally:
+            try:
+                with contextlib.redirect_stdout(out):
+                    sim.cleanup()
+            except Exception:
+                pass
+    return None
+
+
+@replayer(r"(SimCounter|SimTally|SimWeightedTally|SimPersistent|EventBasedCounter|EventBasedTally|Counter)\..*")
+def replay_simstat(rec):
+    for seed in range(2 * DEPTH):
+        f = simstat_search(seed=seed)
+        if f:
+            return {"reproduced": True, "input": f, "observed": f["failure"]}
+    return {"reproduced": False, "note": "no failing observation / warm-up schedule found (160 generated schedules x 4 statistic families)"}
+
+
 # ------------------------------------------------------------------ C12 streams
 @replayer(r"MersenneTwister\..*")
 def replay_streams(rec):
@@ -1659,6 +1783,11 @@ def reinit_search(rounds=40, seed=0, witness=None):
                 for (t, prio, tag) in prog["initial"]:
                     self.simulator.schedule_event_abs(prog["start"] + t, self, "h", prio, tag=tag)
 
+            def init_sched(self):
+                # an initial method (Simulator.add_initial_method): runs at the end of every initialize
+                self.init_calls = getattr(self, "init_calls", 0) + 1
+                self.simulator.schedule_event_abs(prog["start"] + 1.5, self, "h", 5, tag=0)
+
             def h(self, tag):
                 try:
                     self._h(tag)
@@ -1731,6 +1860,9 @@ def reinit_search(rounds=40, seed=0, witness=None):
             prog["persistent"] = False
         history = rng.choice(["fresh", "initialized", "steps", "paused", "ended", "fault"])
         cleanup_between = rng.random() < 0.3        # an explicit cleanup() before the simulator is initialised again
+        # a third of the models registers an initial method on the simulator (not combined with an explicit cleanup(),
+        # about which the statement says nothing)
+        prog["initial_method"] = (rnd % 3 == 1) and not cleanup_between
         if witness is not None:
             prog.update(witness["program"])
             history = witness["history"]
@@ -1742,12 +1874,16 @@ def reinit_search(rounds=40, seed=0, witness=None):
                 ref_sim = DEVSSimulatorFloat("ref")
                 sims.append(ref_sim)
                 ref_m = make_model(ref_sim, prog)
+                if prog.get("initial_method"):
+                    ref_sim.add_initial_method(ref_m, "init_sched")
                 ref_sim.initialize(ref_m, prog["repl"]())
                 ref = observe(ref_sim, ref_m, prog)
                 # the simulator with a history
                 sim = DEVSSimulatorFloat("hist")
                 sims.append(sim)
                 m = make_model(sim, prog)
+                if prog.get("initial_method"):
+                    sim.add_initial_method(m, "init_sched")
                 detail = history
                 if history != "fresh":
                     sim.initialize(m, prog["repl"]())
@@ -1876,6 +2012,25 @@ def lifecycle_search(rounds=60, seed=0):
         def notify(self, event):
             self.got.append((event.event_type.name, getattr(event, "timestamp", None)))
 
+    class Commander(EventListener):
+        """a subscriber that issues a command from inside a notification sent by step(): the step has not returned, the
+        simulator counts as running, so the command must be refused (DSOLError) like any command on a running simulator"""
+        def __init__(self, sim, plan):
+            self.sim, self.plan, self.armed, self.accepted = sim, plan, False, []
+
+        def notify(self, event):
+            c = self.plan.get(event.event_type.name) if self.armed else None
+            if c is None:
+                return
+            try:
+                if c.startswith("run_up_to"):
+                    getattr(self.sim, c)(self.sim.simulator_time + 1.0)
+                else:
+                    getattr(self.sim, c)()
+                self.accepted.append((c, event.event_type.name))
+            except DSOLError:
+                pass
+
     class M(DSOLModel):
         def __init__(self, sim, times):
             super().__init__(sim)
@@ -1915,6 +2070,11 @@ def lifecycle_search(rounds=60, seed=0):
         out = io.StringIO()
         log = []
         rec = None
+        # every other round a subscriber re-enters the simulator from inside one kind of notification of step()
+        plan = {}
+        if rnd % 2:
+            plan = {rng.choice(["START_EVENT", "STOP_EVENT", "TIME_CHANGED_EVENT"]): rng.choice(["start", "step", "run_up_to", "run_up_to_including"])}
+        cmdr = Commander(sim, plan)
         try:
             with contextlib.redirect_stdout(out), contextlib.redirect_stderr(out):
                 cmds = ["initialize"] + [rng.choice(["start", "step", "step", "run_up_to", "run_up_to_including", "end_replication",
@@ -1937,17 +2097,27 @@ def lifecycle_search(rounds=60, seed=0):
                             sim.initialize(m, SingleReplication("r", 0.0, warm, end))
                             rec = Rec()
                             for et in TYPES:
+                                if plan:
+                                    sim.add_listener(et, cmdr)
                                 sim.add_listener(et, rec)
                         elif arg is not None:
                             getattr(sim, c)(arg)
                         else:
-                            getattr(sim, c)()
+                            cmdr.armed = (c == "step")
+                            try:
+                                getattr(sim, c)()
+                            finally:
+                                cmdr.armed = False
                         refused = False
                     except DSOLError:
                         refused = True
                     except Exception as e:
                         return {"events": times, "commands": log, "failure": "%s raised %s: %s" % (c, type(e).__name__, e)}
                     _wait_quiescent(sim)
+                    if cmdr.accepted:
+                        return {"events": times, "commands": log, "reentrant_subscriber": plan,
+                                "failure": "%s issued by a subscriber from inside the %s notification of step() was accepted; the step had "
+                                           "not returned, so the simulator was running and the command must be refused" % cmdr.accepted[0]}
                     if c == "end_replication":
                         t0 = _t.time()
                         while sim.run_state != RunState.ENDED and _t.time() - t0 < 2.0:
@@ -1957,8 +2127,6 @@ def lifecycle_search(rounds=60, seed=0):
                         if after != before:
                             return {"events": times, "commands": log,
                                     "failure": "refused %s changed (run state, replication state, clock, pending, notifications) from %s to %s" % (c, before, after)}
-                        if ended and c in ("start", "step", "stop") is False:
-                            pass
                     elif ended and c in ("start", "step", "stop", "run_up_to", "run_up_to_including"):
                         return {"events": times, "commands": log, "failure": "%s was accepted after the replication had ended" % c}
                     if c == "end_replication" and (sim.run_state != RunState.ENDED or sim.replication_state != ReplicationState.ENDED):
